@@ -19,7 +19,7 @@ Definition v_version (B : str) (i : input) : err :=
 (** meta *)
 Definition v_meta_imports (m : meta) : err :=
   gprefix (s "imports: ")
-    (flat_map (fun kv => [ (if site_match (re_in_MetaImport E) (snd kv) then None else leaf (s "invalid import " ++ quote (snd kv)));
+    (flat_map (fun kv => [ (if site_match (re_in_MetaImport E) (snd kv) && negb (str_eqb (trim_both """"%char (snd kv)) (s ".")) then None else leaf (s "invalid import " ++ quote (snd kv)));
                            (if site_match (re_in_MetaImportAlias E) (fst kv) then None else leaf (s "invalid alias " ++ quote (fst kv))) ])
               (sorted_entries (m_imports m))).
 Definition v_meta_functions (m : meta) : err :=
